@@ -1168,7 +1168,10 @@ impl<'a, C: CellType> OptRebuild<'a, C> {
                             possible_reads.insert(cond);
                             constant = self.constants_among(
                                 &sub_state,
-                                possible_reads.iter().chain(pending.iter()).copied(),
+                                possible_reads
+                                    .iter()
+                                    .chain(pending.iter().filter(|x| !possible_reads.contains(x)))
+                                    .copied(),
                             );
                             let linear = self.linear_among(
                                 &sub_state,
